@@ -236,21 +236,21 @@ pub fn run(tier: Tier) -> CheckResult {
     let deadline = tier_deadline(tier);
     let n = ITEMS.len();
     let mut layouts: Vec<Vec<(usize, Vec<usize>)>> = vec![];
-    // one file: every item subset up to size 3 (quick) / 4 (thorough), at every position
-    for sub in subsets(n, if tier == Tier::Quick { 3 } else { 4 }) {
+    // one file: every item subset up to size 4 (quick) / 5 (thorough; size 5 at one position each)
+    for sub in subsets(n, if tier == Tier::Quick { 4 } else { 5 }) {
         for pos in 0..POSITIONS.len() {
-            if tier == Tier::Quick && sub.len() == 3 && pos != sub[0] % POSITIONS.len() {
+            if sub.len() == 5 && pos != sub[0] % POSITIONS.len() {
                 continue;
             }
             layouts.push(vec![(pos, sub.clone())]);
         }
     }
-    // two files: all pairs of subsets of size <= 1 (quick) / <= 2 (thorough) over position pairs
-    let small = subsets(n, if tier == Tier::Quick { 1 } else { 2 });
+    // two files: all pairs of subsets of size <= 2 (quick: at most 3 items in all) over position pairs
+    let small = subsets(n, 2);
     for (pa, pb) in [(0, 1), (0, 2), (1, 2), (2, 3)] {
         for a in &small {
             for b in &small {
-                if tier == Tier::Thorough && a.len() + b.len() > 3 {
+                if tier == Tier::Quick && a.len() + b.len() > 3 {
                     continue;
                 }
                 layouts.push(vec![(pa, a.clone()), (pb, b.clone())]);
@@ -259,7 +259,7 @@ pub fn run(tier: Tier) -> CheckResult {
     }
     // three / four files: singletons
     let singles = subsets(n, 1);
-    let reduced: Vec<Vec<usize>> = if tier == Tier::Quick { singles.iter().filter(|s| s.is_empty() || [0, 1, 4, 7, 8, 9].contains(&s[0])).cloned().collect() } else { singles.clone() };
+    let reduced: Vec<Vec<usize>> = singles.clone();
     for a in &reduced {
         for b in &reduced {
             for c in &reduced {
@@ -283,7 +283,7 @@ pub fn run(tier: Tier) -> CheckResult {
     for (i, l) in layouts.iter().enumerate() {
         // decoy dimensions: all 16 combinations are cycled through deterministically; every layout
         // gets the all-decoys and the no-decoys variant in thorough
-        let combos: Vec<usize> = if tier == Tier::Thorough { vec![i % 16, 15, 0] } else { vec![i % 16] };
+        let combos: Vec<usize> = if tier == Tier::Thorough { (0..16).collect() } else { vec![i % 16, 15, 0] };
         let mut seen = BTreeSet::new();
         for c in combos {
             if !seen.insert(c) {
@@ -348,7 +348,7 @@ pub fn run(tier: Tier) -> CheckResult {
     res.coverage.set("outputs_not_parsable_here", unparsable_out);
     res.coverage.set("exhaustive", exhaustive);
     res.coverage.set("samples", json!(cases.iter().step_by((cases.len() / 5).max(1)).take(5).collect::<Vec<_>>()));
-    res.coverage.set("rule", "projects: 1..4 source files at directory depths 0..3, each holding a subset of the 14-item menu (7 command spellings: tauri::command / command / with arguments, visibility, async, attribute order, doc comments, generics; 7 decoys: other::command, impl method, nested mod, helper fn, cfg_attr, const+macro text, look-alike paths), crossed with decoy trees (target/, .git/, non-.rs files, an unparsable .rs); ground truth = the generator's own list of annotated top-level fns; oracle: the set of invoke() literals in the parsed commands.ts equals it, one exported function per command, each returning a Promise; adding the unparsable file changes nothing else (differential run). Non-trivial = at least one item present and the project accepted.");
+    res.coverage.set("rule", "projects: 1..4 source files at directory depths 0..3, each holding a subset of the 14-item menu - one file: every subset of up to 4 (thorough: 5) items at every directory position; two files: every pair of subsets of up to 2 items; three files: every triple of single items; four files (thorough): every quadruple over a 6-item menu - (7 command spellings: tauri::command / command / with arguments, visibility, async, attribute order, doc comments, generics; 7 decoys: other::command, impl method, nested mod, helper fn, cfg_attr, const+macro text, look-alike paths), crossed with decoy trees (target/, .git/, non-.rs files, an unparsable .rs: three of the 16 combinations per layout in quick, all 16 in thorough); ground truth = the generator's own list of annotated top-level fns; oracle: the set of invoke() literals in the parsed commands.ts equals it, one exported function per command, each returning a Promise; adding the unparsable file changes nothing else (differential run). Non-trivial = at least one item present and the project accepted.");
     res.assumptions = vec!["return and parameter types are restricted to atoms that pass C05".into()];
     res
 }
